@@ -107,7 +107,29 @@ type AnalyzedLetStatement struct {
 func (self AnalyzedLetStatement) Kind() AnalyzedStatementKind { return LetStatementKind }
 func (self AnalyzedLetStatement) Span() errors.Span           { return self.Range }
 func (self AnalyzedLetStatement) String() string {
+	// The type of a diverging initializer (`never`, also nested as in `[never]`) cannot be written down.
+	if containsNever(self.VarType) {
+		return fmt.Sprintf("let %s = %s;", self.Ident, self.Expression)
+	}
 	return fmt.Sprintf("let %s: %s = %s;", self.Ident, self.VarType, self.Expression)
+}
+
+func containsNever(typ Type) bool {
+	switch typ.Kind() {
+	case NeverTypeKind:
+		return true
+	case ListTypeKind:
+		return containsNever(typ.(ListType).Inner)
+	case OptionTypeKind:
+		return containsNever(typ.(OptionType).Inner)
+	case ObjectTypeKind:
+		for _, field := range typ.(ObjectType).ObjFields {
+			if containsNever(field.Type) {
+				return true
+			}
+		}
+	}
+	return false
 }
 func (self AnalyzedLetStatement) Type() Type { return NewNullType(self.Range) }
 
